@@ -27,6 +27,7 @@ def run_C19(ctx, rep):
     agg_rules.check_L9(ctx, rep, ['c_rel_no_index'])      # concurrent inserts land in a slot that exists, whatever worker inserts
     lib_rules.check_L1(ctx, rep)
     lib_rules.check_L1b(ctx, rep)
+    lib_rules.check_L35(ctx, rep)
     lib_rules.classify_writers(ctx, rep)
     lib_rules.check_L4(ctx, rep)
     lib_rules.check_L6(ctx, rep)
@@ -47,6 +48,7 @@ def run_C20(ctx, rep):
     # with one worker there is no race: an insertion that is not one critical section makes the result depend on the pool size
     lib_rules.check_L1(ctx, rep)
     lib_rules.check_L1b(ctx, rep)
+    lib_rules.check_L35(ctx, rep)
     lib_rules.check_L31(ctx, rep)
     # the generated parallel code: dedup / append / row ids / the lattice insertion mutex protect what they have to under any number of
     # workers (with one worker every interleaving is sequential; a violation here makes the result depend on the pool size)
@@ -54,6 +56,7 @@ def run_C20(ctx, rep):
 
 
 def run_C10(ctx, rep):
+    byods_rules2.check_L38(ctx, rep, ['eqrel_ternary', 'eqrel_ind', 'ceqrel_ind'])
     lib_rules.check_L13(ctx, rep)       # is_empty of every read view is exact (a rule is skipped when a body relation reports empty)
     byods_rules.check_L5(ctx, rep, 'eqrel_ternary')
     byods_rules.check_L15(ctx, rep)
@@ -81,6 +84,9 @@ def run_C10(ctx, rep):
 
 
 def run_C11(ctx, rep):
+    byods_rules2.check_L37(ctx, rep, ['trrel_ternary_ind', 'trrel_binary_ind'])
+    byods_rules2.check_L38(ctx, rep, ['trrel_ternary_ind', 'trrel_binary_ind'])
+    byods_rules2.check_L36(ctx, rep, [('trrel_rel_ind_common', 'trrel_ternary_ind')])
     lib_rules.check_L13(ctx, rep)       # is_empty of every read view is exact (a rule is skipped when a body relation reports empty)
     byods_rules.check_L5(ctx, rep, 'trrel_ternary_ind')
     byods_rules.check_L12(ctx, rep)
@@ -107,6 +113,8 @@ def run_C11(ctx, rep):
 
 
 def run_C12(ctx, rep):
+    byods_rules2.check_L37(ctx, rep, ['adaptor::bin_rel_to_ternary', 'trrel_union_find_binary_ind'])
+    byods_rules2.check_L38(ctx, rep, ['adaptor::bin_rel_to_ternary', 'adaptor::bin_rel', 'trrel_union_find_binary_ind'])
     lib_rules.check_L13(ctx, rep)       # is_empty of every read view is exact (a rule is skipped when a body relation reports empty)
     byods_rules.check_L5(ctx, rep, 'adaptor::bin_rel_to_ternary')
     byods_rules.check_L14(ctx, rep, 'trrel_union_find_binary_ind')
@@ -118,6 +126,7 @@ def run_C12(ctx, rep):
     byods_rules2.check_L29(ctx, rep, 'trrel_union_find_binary_ind')
     byods_rules2.check_L30(ctx, rep)
     byods_rules2.check_L32(ctx, rep)
+    byods_rules2.check_L36(ctx, rep, [('trrel_uf_ind_common', 'adaptor::bin_rel_to_ternary')])
     byods_rules2.check_L28(ctx, rep, ['trrel_union_find_binary_ind', 'trrel_union_find'])
     rep.floor('L29', 3)
     for sc in ('adaptor::bin_rel_to_ternary', 'adaptor::bin_rel::'):
@@ -142,6 +151,7 @@ def run_C05(ctx, rep):
     _lib_protocol(ctx, rep)
     lib_rules.check_L1(ctx, rep)
     lib_rules.check_L1b(ctx, rep)
+    lib_rules.check_L35(ctx, rep)
     lib_rules.check_L31(ctx, rep)
     gen_driver.run_gen(ctx, rep, ['G1G3', 'USES', 'G5', 'G14', 'G15'], floors={'G1': 300, 'G1.lat': 20, 'G1.uses': 800, 'G5': 250, 'G15': 15})
 
@@ -149,6 +159,7 @@ def run_C05(ctx, rep):
 def run_C02(ctx, rep):
     lib_rules.check_L1(ctx, rep)
     lib_rules.check_L1b(ctx, rep)
+    lib_rules.check_L35(ctx, rep)
     lib_rules.check_L31(ctx, rep)
     lib_rules.check_L13(ctx, rep)
     lib_rules.check_L8(ctx, rep)        # "never panic for every thread count": the shard amount is admissible under every pool size
@@ -508,10 +519,10 @@ _ADDENDA = {
            'closure, match arm, guard), aggregations, empty macro bodies, unary arguments; M3, M4 (incl. the Agg arms), M5 on the macro crate.',
     'C09': ' Also: include next to re-declarations / with aggregation / with a lattice / with inner attributes, G16, the update_indices rules (G3.ui, G4.ui), R1 on '
            'ascent_run! programs with captured locals spelled like generated names, initialised relations read only in their own recursive stratum.',
-    'C10': ' Also: L15 path-enumerating, L13, L28, L33 (combine keeps one-element classes), L34 (no element-level exclusion in the delta views), L22 ordering / '
+    'C10': ' Also: L38 (no unordered-pairs adaptor in a two-column index enumeration), L15 path-enumerating, L13, L28, L33 (combine keeps one-element classes), L34 (no element-level exclusion in the delta views), L22 ordering / '
            'hinge / unconditional completion.',
-    'C11': ' Also: L13, L14 guard rule (a step may only stand under an emptiness test of its own operands), L22 ordering / hinge / unconditional completion, L29.',
-    'C12': ' Also: L13, L28, L29, L30 (scan source of the union-find total), L32 (class ids are taken after the last collapsing call), L22 as for C10.',
+    'C11': ' Also: L36 (reverse-map flags of the provider macro), L37 (column order), L38, L13, L14 guard rule (a step may only stand under an emptiness test of its own operands), L22 ordering / hinge / unconditional completion, L29.',
+    'C12': ' Also: L36 (reverse-map flags of the provider macro), L37 (column order), L38, L13, L28, L29, L30 (scan source of the union-find total), L32 (class ids are taken after the last collapsing call), L22 as for C10.',
     'C13': ' Also: the library protocol rules L4, L6, L7, L13; G17 (rows of a lattice relation with equal keys are joined when the indices are rebuilt - open '
            'finding, see known_findings.txt).',
     'C14': ' Also: the library protocol rules L4, L6, L7, L13.',
@@ -520,7 +531,7 @@ _ADDENDA = {
     'C16': ' Also: L10.B (bound tests), L10.T (late snapshot), L10.C (case table of the flat lattice ConstPropagation decided over 4 x 4 abstract pairs), L10.PO '
            '(undefined intermediate comparisons are handed on), L10.W (change flag across a swap of the receiver), L10.SO (inclusion order under containment tests).',
     'C17': ' Also: L11 mean accumulates in f64, count uses a size hint only under lower == upper, percentile ranks over the multiset, L11.all (no row-dropping adaptor).',
-    'C19': ' Also: L13, L27 (whole-index walks leave no shard out), L31, L1b, L9 on the slot index of CRelNoIndex, L4 O2c (collection-valued overwriting insert) and '
+    'C19': ' Also: L35 (no &mut through data_ptr() of a lock), L13, L27 (whole-index walks leave no shard out), L31, L1b, L9 on the slot index of CRelNoIndex, L4 O2c (collection-valued overwriting insert) and '
            'quiet early exits in the merge loops.',
     'C20': ' Also: G1 / G14 / G15 on the generated parallel code, L8 lower bound of the shard amount over all pool sizes, L13, L27, L1 / L1b / L31 (an insertion that is not one critical section makes the result '
            'depend on the pool size).',
